@@ -33,7 +33,9 @@ CONSTANTS
   MaxDepth,     \* longest relative path, in components; directories are only created above that depth
   MaxFiles,     \* at most that many files (directories are what makes shapes interesting)
   RootRule,     \* see above
-  EmitCases     \* print one JSON line per case
+  EmitCases,    \* print one JSON line per case
+  EmitMod,      \* ... but only for trees whose hash is EmitRem modulo EmitMod (1 = all)
+  EmitRem
 
 VARIABLES tree, root, bad, kind, phase
 vars == <<tree, root, bad, kind, phase>>
@@ -289,6 +291,19 @@ CaseRecord ==
     atmost  |-> Res.atmost,
     errname |-> Res.errname ]
 
-Emit == (EmitCases /\ phase = "done") => PrintT("@@" \o ToJson(CaseRecord))
+(* The quick tier exports the cases of one residue class of trees only (all names of the hooks directory and
+   all bad hooks of a selected tree are exported): EmitMod = 1 exports everything. The hash only has to spread
+   trees over the classes; the orchestrator derives EmitRem from the seed.                                   *)
+RECURSIVE CharSum(_, _)
+CharSum(cs, k) == IF cs = <<>> THEN 0 ELSE Code[Head(cs)] * k + CharSum(Tail(cs), k + 1)
+
+EntryHash(e) == CharSum(PathChars(e.path), 1) + (IF e.kind = "dir" THEN 7 ELSE 0) + 131 * Cardinality(e.x)
+
+RECURSIVE TreeHash(_)
+TreeHash(S) == IF S = {} THEN 0 ELSE LET e == CHOOSE f \in S : TRUE IN EntryHash(e) + TreeHash(S \ {e})
+
+Selected == EmitMod = 1 \/ TreeHash(tree) % EmitMod = EmitRem
+
+Emit == (EmitCases /\ phase = "done" /\ Selected) => PrintT("@@" \o ToJson(CaseRecord))
 
 =============================================================================
